@@ -517,14 +517,15 @@ class WorkerExtract(Contract):
                 started = [e for e in evs if e.kind == "call" and e.name in ("extract_single", "concurrent")]
                 out = []
                 if not started:
-                    # the folder was skipped: only allowed when skipping is on and none of its members has a target
+                    # the folder was skipped: only allowed when skipping is on and none of its members has a target ...
                     anys = [e for e in evs if e.kind == "pure" and e.name == "any"]
                     comps = [e for e in evs if e.kind == "pure" and e.name == "listcomp"]
                     from pyvc import builtins_model as B
 
                     folders = attr(attr(attr(attr(me, "header"), "main_streams"), "unpackinfo"), "folders")
                     fi = B.get_item(eng, folders, Lp.i, None)
-                    ok = False
+                    # ... or when the folder owns no member at all (no unpack streams: its member list was never created)
+                    ok = eq(attr(fi, "files"), None)
                     for a in anys:
                         for cp in comps:
                             if a.args[0] is cp.result and "target_filepath.get(f.id, None)" in cp.kwargs.get("text", ""):
